@@ -17,6 +17,7 @@ Sub-spaces (`sub` of a case):
             (constructor, dictionaries with canonical keys and width/height/depth, JSON files)
   cgperiodic coarse-graining a grid that has a periodical axis, through all 4 entry points
   rxspecies  a reaction of a network naming an undeclared species on either side, through every construction route
+  mandatory  every key without a documented default removed from minimal and complete dictionaries, nested and file routes
   envlen    cell_env of length n-1, n+1, 0 (constructor, setter, dictionaries; list / tuple / ndarray)
   envidx    an environment index >= number of environments at each cell, at every point of use (system
             construction with default state / chemostats, set_default_*, generate_*, kinetics, engine set-up)
@@ -260,7 +261,11 @@ GROUPS = {
 DISPUTED = {"system": ["chemostats", "chstt_map"],
             "reaction": ["stoichiometry", "stoechiometry", "environments", "env"],
             "grid": ["type"]}
-MANDATORY = {"species": ["label"], "reaction": ["eq"], "system": ["network"], "script": ["system", "t_sample"]}
+# keys without a documented default (documentation/json_and_dict_doc.rst; the script's other keys have their defaults
+# in the RDScript documentation, "environments" in RDNetwork's).  graph / node / edge / trajectory dictionaries are not
+# documented: nothing is claimed for them.
+MANDATORY = {"species": ["label"], "reaction": ["eq"], "network": ["species"], "system": ["network"],
+             "script": ["system", "t_sample"], "unitarray": ["value", "units"]}
 UNKNOWN_KEYS = ["foo", "labell", "Units", "unit"]
 CHILDREN = {
     "script": [("system", "system"), ("t_sample", "unitarray"), ("units", "unitssystem")],
@@ -2109,12 +2114,134 @@ def _rxspecies(case, out):
     return True
 
 
+# ---- mandatory keys, systematically (minimal and complete dictionaries, nested and file routes) ---------------------
+
+# every spelling under which a mandatory key may be present (all are removed together)
+MAND_SPELLINGS = {("script", "system"): ["system"], ("script", "t_sample"): ["t_sample"],
+                  ("system", "network"): ["network", "rdnetwork"], ("network", "species"): ["species"],
+                  ("species", "label"): ["label", "l"],
+                  ("reaction", "eq"): ["eq", "sto", "equation", "stoichiometry", "stoechiometry"],
+                  ("unitarray", "value"): ["value"], ("unitarray", "units"): ["units"]}
+MAND_LOADERS = {"script": load_rdscript, "system": load_rdsystem, "network": load_rdnetwork}
+
+
+def _mand_base(name):
+    """A script dictionary; the other kinds are taken from inside it."""
+    if name == "bare":
+        return {"system": {"network": {"species": [{"label": "A"}]}}, "t_sample": [0, 1]}
+    if name == "minimal":
+        return {"system": {"network": {"species": [{"label": "A"}, {"l": "B"}], "reactions": [{"eq": "A -> B"}]},
+                           "state": {"value": [1.0, 2.0], "units": "molecule"}},
+                "t_sample": {"value": [0.0, 1.0], "units": "s"}}
+    if name == "minimal-aliases":
+        return {"system": {"rdnetwork": {"species": [{"l": "A"}, {"label": "B"}], "reactions": [{"sto": "A -> B"},
+                                                                                                {"equation": "B -> A"}],
+                                         "env": ["cyt", "mem"]}},
+                "t_sample": [0, 1]}
+    if name == "complete-grid":
+        return d_script("grid")
+    if name == "complete-graph":
+        return d_script("graph")
+    raise ValueError(name)
+
+
+MAND_BASES = ("bare", "minimal", "minimal-aliases", "complete-grid", "complete-graph")
+MAND_TOPS = ("script", "system", "network", "species", "reaction", "unitarray")
+
+
+def _mand_extract(base, top):
+    """The dictionary of kind `top` inside the script dictionary (None if there is none)."""
+    sysd = base["system"]
+    netd = sysd.get("network", sysd.get("rdnetwork"))
+    if top == "script":
+        return base
+    if top == "system":
+        return sysd
+    if top == "network":
+        return netd
+    if top == "species":
+        return netd["species"][-1]
+    if top == "reaction":
+        return netd["reactions"][0] if netd.get("reactions") else None
+    if top == "unitarray":
+        return base["t_sample"] if isinstance(base["t_sample"], dict) else None
+    raise ValueError(top)
+
+
+def _mand_sites(reader, d, path=()):
+    """Like _sites, following the alias spellings of the nesting keys as well."""
+    out = [(list(path), reader)]
+    for names, child in {"script": [(["system"], "system"), (["t_sample"], "unitarray")],
+                         "system": [(["network", "rdnetwork"], "network"), (["state"], "unitarray")],
+                         "network": [(["species"], "[species]"), (["reactions"], "[reaction]")]}.get(reader, []):
+        for key in names:
+            if key not in d:
+                continue
+            v = d[key]
+            if child.startswith("["):
+                for i, x in enumerate(v):
+                    if isinstance(x, dict):
+                        out.extend(_mand_sites(child[1:-1], x, path + (key, i)))
+            elif isinstance(v, dict):
+                out.extend(_mand_sites(child, v, path + (key,)))
+    return out
+
+
+def _mandatory(case, out):
+    base_name, top, route = case["base"], case["top"], case["route"]
+    only = case.get("only")
+    d0 = _mand_extract(_mand_base(base_name), top)
+    if d0 is None:
+        return False
+
+    def call(d):
+        if route == "from_dict":
+            return READERS[top](d)
+        return _via_json(MAND_LOADERS[top], d)
+    rname = "%s_from_dict" % top if route == "from_dict" else "load_rd%s(json file)" % top
+    if accept(out, "missing-key", "%s:mandatory:%s:%s" % (P, top, base_name),
+              "%s(%r)" % (rname, d0), lambda: call(copy.deepcopy(d0))) is None:
+        return False
+    k = 0
+    for path, site in _mand_sites(top, d0):
+        node0 = _node(d0, path)
+        for key in MANDATORY.get(site, []):
+            spellings = MAND_SPELLINGS[(site, key)]
+            if not any(sp in node0 for sp in spellings):
+                continue
+            variants = [("", lambda nd: None)]
+            if (site, key) == ("network", "species"):
+                # the species list is what the reactions refer to: also without / with an empty reaction list
+                variants.append(("no-reactions", lambda nd: nd.pop("reactions", None)))
+                variants.append(("empty-reactions", lambda nd: nd.__setitem__("reactions", [])))
+            for vname, extra in variants:
+                item = {"path": path, "key": key, "variant": vname}
+                if not _selected(only, item):
+                    continue
+                if k % 4 == 0:
+                    accept(out, "missing-key", "%s:mandatory:%s:%s" % (P, top, base_name),
+                           "%s(valid dictionary, replayed between invalid inputs)" % rname,
+                           lambda: call(copy.deepcopy(d0)))
+                k += 1
+                d = copy.deepcopy(d0)
+                nd = _node(d, path)
+                for sp in spellings:
+                    nd.pop(sp, None)
+                extra(nd)
+                where = "/".join(str(p) for p in path) or "(top level)"
+                reject(out, "missing-key", "%s:missing-key:%s:%s" % (P, site, key),
+                       "%s of the %s dictionary %r, i.e. without the mandatory key %r of the %s dictionary at %s%s"
+                       % (rname, base_name, d, key, site, where, (" (%s)" % vname) if vname else ""),
+                       lambda: call(d), item)
+    return True
+
+
 # =====================================================================================================
 # dispatch, enumeration
 # =====================================================================================================
 
 SUBS = {"keys": _keys, "dim": _dim, "usym": _usym, "gridsize": _gridsize, "envlen": _envlen, "envidx": _envidx,
-        "enum": _enum, "edgeidx": _edgeidx, "cgperiodic": _cgperiodic, "rxspecies": _rxspecies, "pos": _pos, "species": _species, "reaction": _reaction, "cgmap": _cgmap}
+        "enum": _enum, "edgeidx": _edgeidx, "cgperiodic": _cgperiodic, "rxspecies": _rxspecies, "mandatory": _mandatory, "pos": _pos, "species": _species, "reaction": _reaction, "cgmap": _cgmap}
 
 
 def _run_case(case):
@@ -2257,6 +2384,13 @@ def _spaces(tier):
     for route in RX_ROUTES:
         for form in ("string", "dict"):
             small.append({"sub": "rxspecies", "route": route, "form": form})
+    for base in MAND_BASES:
+        for top in MAND_TOPS:
+            for route in ("from_dict", "load"):
+                if route == "load" and top not in MAND_LOADERS:
+                    continue
+                if _mand_extract(_mand_base(base), top) is not None:
+                    small.append({"sub": "mandatory", "base": base, "top": top, "route": route})
     sp.append(("small: grid sizes 0/-1 per axis x routes; cell_env lengths n-1/n+1/0/2n x shapes x routes x "
                "containers; unknown boundary condition / axis / sampling policy / init_state_processing / empty "
                "environment list / environment 'default' x routes; RDGraphSpace.check() with an edge end outside the graph "
@@ -2265,7 +2399,10 @@ def _spaces(tier):
                "dictionaries) x valid maps; grid sizes now every value of integer size <= 0 %r x 10 routes incl. JSON files"
                "; reactions naming an undeclared species (substrate / product / both sides; only, first, second term, "
                "with a coefficient, empty other side; 5 unknown labels incl. wrong case; string and dict stoichiometry; "
-               "alone / first / second reaction) x RDNetwork, network / system / script dictionaries and JSON files"
+               "alone / first / second reaction) x RDNetwork, network / system / script dictionaries and JSON files; "
+               "every documented mandatory key (script system, t_sample; system network; network species; species "
+               "label; reaction equation; unit array value, units) removed under all its spellings from bare / minimal "
+               "/ alias-spelt / complete dictionaries, at every nesting level, through *_from_dict and load_* files"
                % (BAD_SIZES,), small, 2))
     return sp
 
